@@ -23,7 +23,9 @@ Round 4 (two changes per property, this time *realistic maintenance work*: A a p
 
 Round 5 (two changes per property again, other kinds of maintenance work: A a bug fix or edge-case improvement answering a plausible user report, B a modernisation or dependency change - match statements, `str.translate`, `json.loads` for unescaping, ChainMap registries, compile-time precomputation; the brief asked to avoid the mechanisms already tried): 31 of 40 caught at first contact by their own property's check. Of the 9 others, one made C05 end in a harness error (exit 2) instead of a violation - its own set-up tripped over the changed registry type - which was a defect of the harness; 5 were caught by a neighbouring property's check (C03/C08 for C01's, C17 for C02's, C14 for C15's, C18 for C17's); 3 by none. Side remarks gave finding AR.
 
-Every miss was a region the generators did not reach, never an oracle that accepted the wrong behaviour; each led to a general widening of a generator, described in the `first contact` column and in DESIGN.md section 6.
+Round 6 (three changes per property, each aimed at a different clause of the property statement - the author was asked to pick the clauses hardest to test - and at a different mechanism among the code anchors; a list of already-tried ideas was to be avoided; 60 written, 59 kept: one C20 change made `--debug` print no traceback, which the property permits): 41 of 59 caught at first contact by their own property's check. One of the others made C13 hang for hours (an arithmetic operation inside one C call, out of reach of the CPU-budget timer); the runner now ends such a worker with a watchdog thread and reports the in-flight case. Two misses were oracle weaknesses rather than generator gaps: an obsolete exclusion left over from finding R discarded every function argument starting with `!` or `(` (C12, also C02/C10), and C15 allowed find_one to raise where the README's definition makes it return the first node. Side remarks gave findings AS (fixed) and AT (open, third-party crash).
+
+Up to round 5 every miss was a region the generators did not reach, never an oracle that accepted the wrong behaviour (round 6 found the two oracle weaknesses named above); each led to a general widening of a generator, described in the `first contact` column and in DESIGN.md section 6.
 """
 
 
@@ -39,7 +41,7 @@ for d in sorted(glob.glob("/verif/seeded/*/")):
     if os.path.exists(p):
         metas.append((os.path.basename(d.rstrip("/")), json.load(open(p))))
 missing = []
-for rnd in (1, 2, 3, 4, 5):
+for rnd in (1, 2, 3, 4, 5, 6):
     out.append(f"\n## Round {rnd}\n\n| id | needs, to manifest | first contact | now (quick tier, seed 1) |\n|---|---|---|---|\n")
     for sid, m in metas:
         if m.get("round", 1) != rnd:
